@@ -239,6 +239,70 @@ theorem eq_row_feasible (a b s : K) (hs : 0 < s) :
   · rintro ⟨(⟨h1, _⟩ | ⟨_, h⟩), (⟨h2, _⟩ | ⟨_, h'⟩)⟩ <;> linarith
   · rintro rfl; simp [le_of_lt hs]
 
+/-- component-wise agreement on the rows the left-hand side has -/
+def ArrEq (a b : Array K) : Prop := ∀ r, r < a.size → a.getD r 0 = b.getD r 0
+
+/-- all atoms of a positively scaled vector equality row are non-negative iff the two sides agree component-wise -/
+theorem eqAtoms_feasible (lhs rhs scale : Array K) (hs : ∀ r, r < lhs.size → 0 < scale.getD r 1) :
+    (∀ a ∈ Ctx.eqAtoms lhs rhs scale, 0 ≤ a) ↔ ArrEq lhs rhs := by
+  unfold Ctx.eqAtoms ArrEq
+  simp only [List.mem_flatMap, List.mem_range, nat_eq, Nat.cast_zero, Nat.cast_one]
+  constructor
+  · intro h r hr
+    have h1 := h ((rhs.getD r 0 - lhs.getD r 0) / scale.getD r 1) ⟨r, hr, by simp⟩
+    have h2 := h ((lhs.getD r 0 - rhs.getD r 0) / scale.getD r 1) ⟨r, hr, by simp⟩
+    exact (eq_row_feasible _ _ _ (hs r hr)).mp ⟨h1, h2⟩
+  · rintro h a ⟨r, hr, ha⟩
+    have := (eq_row_feasible (lhs.getD r 0) (rhs.getD r 0) _ (hs r hr)).mpr (h r hr)
+    simp only [List.mem_cons, List.mem_nil_iff, or_false] at ha
+    rcases ha with rfl | rfl
+    · exact this.1
+    · exact this.2
+
+/-- **the dynamic constraints of DirectCollocation hold at a point exactly when**, on every integration step `(k,i)`, the collocation
+polynomial's slope equals the right-hand side at every collocation time (with that time, that point's helper state and algebraic value,
+the interval's control and parameters), the algebraic equations vanish there, and the polynomial's end value is the next start state —
+the conjunction over ALL rows, all scales positive -/
+theorem dc_feasible_iff (c : Ctx K)
+    (hX : ∀ r, 0 < c.o.scaleX.getD r 1) (hD : ∀ r, 0 < c.o.scaleDer.getD r 1) (hZ : ∀ r, 0 < c.o.scaleZ.getD r 1) :
+    (∀ row ∈ c.dcDynRows, ∀ a ∈ row.atoms, 0 ≤ a) ↔
+      ∀ k, k < c.N → ∀ i, i < c.M →
+        (∀ j, j < c.d →
+          ArrEq (collocSlope c.cc.C (c.XcFull k i) j (c.hStep k)).toArray
+            (c.o.ode.map (·.eval (c.rhsEnv k ((c.XcDC k i).getD j (vzero _)) (c.ZcDC k i j) (c.rootTime k i j) (nat 0) (nat 0)))).toArray ∧
+          (c.o.nz ≠ 0 → ArrEq (Array.replicate c.o.alg.size (nat 0))
+            (c.o.alg.map (·.eval (c.rhsEnv k ((c.XcDC k i).getD j (vzero _)) (c.ZcDC k i j) (c.rootTime k i j) (nat 0) (nat 0)))))) ∧
+        ArrEq (collocEnd c.cc.D (c.XcFull k i)).toArray (if i = c.M - 1 then c.Xvar (k+1) else c.XiDC k (i+1)).toArray := by
+  constructor
+  · intro h k hk i hi
+    refine ⟨fun j hj => ⟨?_, ?_⟩, ?_⟩
+    · rw [← eqAtoms_feasible _ _ c.o.scaleDer (fun r _ => hD r)]
+      exact h _ (defect_row c k i j hk hi hj)
+    · intro hnz
+      rw [← eqAtoms_feasible _ _ c.o.scaleZ (fun r _ => hZ r)]
+      apply h { tag := s!"alg {k} {i} {j}", atoms := _ }
+      simp only [Ctx.dcDynRows, List.mem_flatMap, List.mem_range, List.mem_append]
+      exact ⟨k, hk, i, hi, Or.inl ⟨j, hj, Or.inr (by rw [if_neg hnz]; exact List.mem_singleton.mpr rfl)⟩⟩
+    · rw [← eqAtoms_feasible _ _ c.o.scaleX (fun r _ => hX r)]
+      exact h _ (continuity_row c k i hk hi)
+  · intro h row hrow
+    simp only [Ctx.dcDynRows, List.mem_flatMap, List.mem_range, List.mem_append] at hrow
+    obtain ⟨k, hk, i, hi, hr⟩ := hrow
+    obtain ⟨hdef, hcont⟩ := h k hk i hi
+    rcases hr with ⟨j, hj, hr⟩ | hr
+    · obtain ⟨h1, h2⟩ := hdef j hj
+      simp only [List.mem_append, List.mem_cons, List.mem_nil_iff, or_false] at hr
+      rcases hr with rfl | hr
+      · exact (eqAtoms_feasible _ _ c.o.scaleDer (fun r _ => hD r)).mpr h1
+      · by_cases hnz : c.o.nz = 0
+        · simp [hnz] at hr
+        · simp only [hnz, if_false, List.mem_cons, List.mem_nil_iff, or_false] at hr
+          subst hr
+          exact (eqAtoms_feasible _ _ c.o.scaleZ (fun r _ => hZ r)).mpr (h2 hnz)
+    · simp only [List.mem_cons, List.mem_nil_iff, or_false] at hr
+      subst hr
+      exact (eqAtoms_feasible _ _ c.o.scaleX (fun r _ => hX r)).mpr hcont
+
 end feasible
 
 /-! non-vacuity: Radau nodes of degree 2 are distinct; the basis through `0, 1/3, 1` -/
